@@ -636,6 +636,11 @@ func runC16(sh *core.Shard, a props.Args) {
 		r := rand.New(rand.NewSource(a.CaseSeed(i)))
 		fmt.Printf("CASE C16 scenario=%d conns=%d faults=%v finish=%s\n", i, s.nconns, s.faults, s.finish)
 		sig, what, trail, inc := runC16Scenario(r, sh, s.nconns, s.faults, s.finish)
+		if inc != "" {
+			fmt.Printf("RETRY C16 scenario %d after inconclusive: %s\n", i, inc)
+			sh.Count("scenarios_retried_after_inconclusive", 1)
+			sig, what, trail, inc = runC16Scenario(rand.New(rand.NewSource(a.CaseSeed(i)+1)), sh, s.nconns, s.faults, s.finish)
+		}
 		sh.Eval()
 		if inc != "" {
 			sh.Inconcl("scenario %d: %s", i, inc)
